@@ -132,12 +132,14 @@ impl Space {
 }
 
 /// i-th case of the matrix: subset and protocol are enumerated (every one of
-/// the 128 x 6 combinations recurs every 768 cases), the rest is drawn from a
-/// PRNG keyed by (seed, i).
+/// the 128 x 6 combinations recurs every 768 cases; protocols descend from 5), the
+/// rest is drawn from a PRNG keyed by (seed, i).
 pub fn matrix_case(i: usize, seed: u64, sp: &Space) -> Config {
     let mut rng = Rng::new(mix(seed, i as u64));
     let bits = (i % 128) as u32;
-    let proto = ((i / 128) % 6) as u8;
+    // protocols in DESCENDING order (5 first): process-wide state left behind by a higher protocol
+    // would then leak into lower-protocol outputs, where it violates the per-protocol properties
+    let proto = (5 - (i / 128) % 6) as u8;
     let mut mutators = subset(bits);
     // occasionally permute / duplicate the list (order matters: first wins)
     match rng.below(8) {
